@@ -35,6 +35,11 @@ Definition mod_key (b : nat) (m : modality) : mat := confusion_matrix b m.
 Definition mod_eq (b : nat) (m1 m2 : modality) : bool :=
   mat_eqb (confusion_matrix b m1) (confusion_matrix b m2).
 
+(** [__eq__] between modalities of different arity (one [is_trinary], one not): np.array_equal
+    of a (2,2) with a (3,2) matrix *)
+Definition mod_eq2 (b1 b2 : nat) (m1 m2 : modality) : bool :=
+  mat_eqb (confusion_matrix b1 m1) (confusion_matrix b2 m2).
+
 (** * Distributions (lymph/diagnosis_times.py:150-178) *)
 (** Distribution.is_updateable *)
 Definition dist_updateable (d : dist) : bool :=
@@ -178,6 +183,10 @@ Definition C20_param_key_defined_stmt : Prop :=
 (** ** 1. objects that compare equal have equal keys (and conversely) *)
 Definition C20_mod_eq_iff_key_eq_stmt : Prop :=
   forall b m1 m2, mod_eq b m1 m2 = true <-> mod_key b m1 = mod_key b m2.
+(** switching the arity always changes equality and the key *)
+Definition C20_mod_mixed_arity_stmt : Prop :=
+  forall m1 m2, mod_eq2 2 3 m1 m2 = false /\ mod_eq2 3 2 m1 m2 = false /\ mod_key 2 m1 <> mod_key 3 m2 /\
+    (forall b, mod_eq2 b b m1 m2 = mod_eq b m1 m2).
 (** [__eq__] compares the keyword DICTS, the hash the keyword TUPLE: the implication
     needs the keywords in the same order (fixed by the signature of the family) *)
 Definition C20_dist_eq_implies_key_eq_stmt : Prop :=
